@@ -288,7 +288,7 @@ def short(t, depth=0):
         return f"return {short(t[1])}"
     if k == "match":
         return "match " + short(t[1]) + " {" + ", ".join(f"{l} => {short(b)}" for l, b in t[2]) + "}"
-    return f"<{t[1]}>"
+    return f"<{t[1] if len(t) > 1 else t[0]}>"
 
 
 def subterms(t):
@@ -376,6 +376,9 @@ def path_conditions(parents, target):
             continue
         if anc.get("k") == "If" and key in ("then", "else"):
             out.append((anc["cond"], key == "then"))
+        # the guard of a match arm holds in that arm's body
+        if "k" not in anc and "pat" in anc and "body" in anc and key == "body" and isinstance(anc.get("guard"), dict):
+            out.append((anc["guard"], True))
         if "stmts" in anc and "k" not in anc:
             for st in anc["stmts"]:
                 if st.get("s") != "Expr":
